@@ -71,7 +71,10 @@ def reset_globals():
     from vtlengine.DataTypes.TimeHandling import TimePeriodConfig
     from vtlengine.Utils.__Virtual_Assets import VirtualCounter
     X.dataset_output = None
-    VP._current_registry = None
+    if hasattr(VP._current_registry, "set"):      # a ContextVar since the per-thread registry fix
+        VP._current_registry.set(None)
+    else:
+        VP._current_registry = None
     TimePeriodConfig._representation = "vtl"
     VirtualCounter.dataset_count = 0
     VirtualCounter.component_count = 0
@@ -120,6 +123,8 @@ class Forced:
                 self.owners[id(reg)] = i
             elif t == "TRegGet":
                 cur = VP._current_registry
+                if hasattr(cur, "get"):               # ContextVar: the value THIS thread's context holds
+                    cur = cur.get()
                 ev["owner"] = self.owners.get(id(cur), -1) if cur is not None else -2
             elif t == "TTpGet":
                 from vtlengine.DataTypes.TimeHandling import TimePeriodConfig
@@ -265,32 +270,38 @@ def model_schedule(applied: List[Tuple[int, int]], tagss: List[List[str]]) -> Li
 
 
 # ------------------------------------------------------------------------------------------------ model side (Coq)
-HEADER = ("From Coq Require Import List ZArith. Import ListNotations.\nFrom VTL Require Import Model.Interleave.\n")
+HEADER = ("From Coq Require Import List ZArith Bool. Import ListNotations.\nFrom VTL Require Import Model.Interleave Proofs.InterleaveP.\n")
 
 
-def coq_prog(tok: int, tags: List[str]) -> str:
-    return f"(prog_of_trace gmap_impl {tok}%Z [{'; '.join(t.rstrip('!') for t in tags)}])"
+def coq_prog(i: int, tags: List[str]) -> str:
+    return f"(prog_of_trace (gmap_impl {i}) {i + 1}%Z [{'; '.join(t.rstrip('!') for t in tags)}])"
 
 
 def coq_progs(tagss: List[List[str]]) -> str:
-    arms = " | ".join(f"{i} => {coq_prog(i + 1, t)}" for i, t in enumerate(tagss))
+    arms = " | ".join(f"{i} => {coq_prog(i, t)}" for i, t in enumerate(tagss))
     return f"(fun j : nat => match j with {arms} | _ => [] end)"
 
 
-WATCHED = "[GRegistry; GVcDs; GVcDc]"
-
-
-def model_obs(tagss: List[List[str]], scheds: List[List[int]], tag: str) -> List[List[List[Tuple[int, int]]]]:
-    """element 0: each call's solo observations; then, for each schedule, each thread's observations under that schedule
-    (chronological (global, value) pairs for the registry and the two counters; registry values are tokens = thread + 1, 0 = initial)"""
-    n = len(tagss)
-    progs = coq_progs(tagss)
-    flt = f"(fun l => rev (filter (fun o => mem (fst o) {WATCHED}) l))"
-    exprs = [f"map (fun i => {flt} (solo_result zero_store ({progs} i))) (seq 0 {n})"]
-    for s in scheds:
-        ss = "[" + "; ".join(str(x) for x in s) + "]"
-        exprs.append(f"map (fun i => {flt} (obs_of {ss} {progs} i)) (seq 0 {n})")
-    return common.coq_eval(HEADER, exprs, tag, shard=40)
+def model_obs_batch(jobs: List[Tuple[List[List[str]], List[List[int]]]], tag: str) -> List[List[List[List[Tuple[int, int]]]]]:
+    """jobs: (traces of the calls, step-level schedules).  For each job: element 0 = each call's solo observations, then, per
+    schedule, each thread's observations under it — chronological (global, value) pairs for the registry cell of the thread
+    (reported as global 1; values are tokens = thread + 1, 0 = initial) and the two process-wide counters.  One Coq run for all."""
+    flt = "(fun l => rev (map (fun o => (if Nat.leb 100 (fst o) then GRegistry else fst o, snd o)) (filter (fun o => mem (fst o) [GVcDs; GVcDc] || Nat.leb 100 (fst o)) l)))"
+    exprs, sizes = [], []
+    for tagss, scheds in jobs:
+        n = len(tagss)
+        progs = coq_progs(tagss)
+        exprs.append(f"map (fun i => {flt} (solo_result zero_store ({progs} i))) (seq 0 {n})")
+        for s_ in scheds:
+            ss = "[" + "; ".join(str(x) for x in s_) + "]"
+            exprs.append(f"map (fun i => {flt} (obs_of {ss} {progs} i)) (seq 0 {n})")
+        sizes.append(1 + len(scheds))
+    flat = common.coq_eval(HEADER, exprs, tag, shard=12)
+    out, k = [], 0
+    for sz in sizes:
+        out.append(flat[k:k + sz])
+        k += sz
+    return out
 
 
 def engine_obs(events: List[dict]) -> List[Tuple[int, int]]:
@@ -308,7 +319,8 @@ def engine_obs(events: List[dict]) -> List[Tuple[int, int]]:
 
 def model_shapes(items: List[Tuple[str, List[str]]], tag: str) -> List[bool]:
     fn = {"run": "is_run_trace", "semantic": "is_semantic_trace", "prettify": "is_parse_trace", "create_ast": "is_parse_trace"}
-    exprs = [f"{fn[k]} [{'; '.join(x.rstrip('!') for x in t)}]" for k, t in items]
+    # the shape of the call's skeleton AND the hypothesis of C17_registry_serializable_impl (no registry read before the call's own set)
+    exprs = [f"{fn[k]} [{'; '.join(x.rstrip('!') for x in t)}] && reg_wf false [{'; '.join(x.rstrip('!') for x in t)}]" for k, t in items]
     return common.coq_eval(HEADER, exprs, tag, shard=200)
 
 
@@ -674,7 +686,7 @@ def run(ctx):
         try:
             ok_shapes = model_shapes(shape_items, "c17shape")
             badshape = [f"{n} {k} {t}" for (k, t), n, okk in zip(shape_items, shape_names, ok_shapes) if not okk]
-            ctx.oblige("tie: every recorded global-access trace matches the model's skeleton of its API call (is_run_trace / is_semantic_trace / is_parse_trace)",
+            ctx.oblige("tie: every recorded global-access trace matches the model's skeleton of its API call (is_run_trace / is_semantic_trace / is_parse_trace) and reads the registry only after its own set (reg_wf)",
                        not badshape, "; ".join(badshape[:3]))
             ctx.cov["traces_checked_against_skeleton"] = len(shape_items)
             for n, (k, t) in list(zip(shape_names, shape_items))[:3]:
@@ -686,9 +698,11 @@ def run(ctx):
             bysc: Dict[str, List[int]] = {}
             for idx, (sc, _, _, _, _) in enumerate(pending_model):
                 bysc.setdefault(sc["name"], []).append(idx)
-            for scname, idxs in bysc.items():
+            names = list(bysc)
+            batch = model_obs_batch([(pending_model[bysc[n][0]][3], [pending_model[i][4] for i in bysc[n]]) for n in names], "c17m")
+            for scname, res in zip(names, batch):
+                idxs = bysc[scname]
                 tagss = pending_model[idxs[0]][3]
-                res = model_obs(tagss, [pending_model[i][4] for i in idxs], "c17m")
                 msolo = [[tuple(x) for x in th] for th in res[0]]
                 for i, pred in zip(idxs, res[1:]):
                     sc, sname, f, _, msched = pending_model[i]
